@@ -30,7 +30,8 @@ def clean():
 
 def strip(cmd):
     parts = [x.strip() for x in cmd.split("&&")]
-    keep = [x for x in parts if x and not x.startswith("cd ") and "git apply" not in x
+    keep = [x for x in parts if x and not x.startswith("cd ") and not x.startswith(". ") and not x.startswith("source ")
+            and not x.startswith("export ") and not x.startswith("mkdir ") and not x.startswith("cp ") and "git apply" not in x
             and "git checkout" not in x and "git stash" not in x and "git clean" not in x]
     keep = [re.sub(r"\b(CARGO_TARGET_DIR|CARGO_HOME|CARGO_NET_OFFLINE|ROCKSDB_LIB_DIR|ROCKSDB_STATIC)=\S+\s*", "", x) for x in keep]
     def core(x):
@@ -71,7 +72,10 @@ for d in dirs:
     demo_fns[d] = fns
     r = git("apply", demo)
     if r.returncode != 0:
-        r = git("apply", "--3way", demo)
+        # several demos append at the same place: let patch(1) place the hunk with fuzz
+        r = subprocess.run(["patch", "-p1", "-F3", "-N", "--no-backup-if-mismatch", "-i", demo], cwd=wt,
+                           stdout=subprocess.PIPE, stderr=subprocess.STDOUT, text=True)
+        subprocess.run(["bash", "-c", "find . -name '*.rej' -newer /tmp/lead/cutoff -not -path './target*' -delete"], cwd=wt)
     res[d]["demo_applies"] = r.returncode == 0
     if r.returncode != 0:
         res[d]["error"] = "demo.diff does not apply together with the others: " + r.stdout[-300:]
